@@ -9,3 +9,5 @@ import Bmc.Proofs.C01
 #print axioms Bmc.Proofs.C01.hfit_of_lawful
 #print axioms Bmc.Proofs.C01.response_returned
 #print axioms Bmc.Proofs.C01.responseMsg_wf
+#print axioms Bmc.Proofs.C01.command_answered
+#print axioms Bmc.Proofs.C01.all_commands_answered
